@@ -7,7 +7,7 @@ from harness import resampler as R
 
 ID = "C07"
 PROPS = "props/C07.v"
-NEEDS = []  # TODO T-tie
+NEEDS = ["calculate_window_end"]
 
 
 def judge_c07(case, log):
@@ -184,7 +184,7 @@ class C07Stream(R.ScenarioStream):
 
 
 def streams():
-    return [C07Stream()]
+    return [C07Stream(), ActorStream()]
 
 
 ASSUMPTIONS = [
@@ -212,3 +212,94 @@ META = {
                   "the harness: on ResamplingError remove the failing sources and call resample() again). Runs in which a driver "
                   "action and a tick are due at the same clock reading are not judged (asyncio gives no order there); they are counted.",
 }
+
+
+# ----------------------------------------------------------------------------- the real actor
+def judge_actor(case, log):
+    out = []
+    p, start, align = case["period"], case["start"], case["align"]
+    hogs = R.hog_list(log)
+    per = {}
+    for e in log:
+        if e[0] == "out":
+            per.setdefault(e[1], []).append((e[2], e[3]))
+    base = start if align is None else align
+    for sid, xs in sorted(per.items()):
+        for T, clk in xs:
+            if (T - base) % p != 0:
+                out.append(f"alignment: metric {sid} got timestamp {T}, not align_to + k*period")
+                break
+            if T < start:
+                out.append(f"start: metric {sid} got timestamp {T} before the creation instant {start}")
+                break
+            if clk + start < T:
+                out.append(f"future: metric {sid}: the sample stamped {T} was sent at wall-clock {clk + start}")
+                break
+            exp = T - start
+            skip = False
+            for h0, h1 in hogs:
+                if abs(exp - h0) <= 2:
+                    skip = True
+                if h0 <= exp < h1:
+                    exp = h1
+            if not skip and abs(clk - exp) > 1:
+                out.append(f"timer: metric {sid}: the sample stamped {T} was sent at +{clk}, expected +{exp}")
+                break
+        for (a, _), (b, _) in zip(xs, xs[1:]):
+            if b - a != p:
+                out.append(f"gap-free: metric {sid} got {a} then {b} (period {p})")
+                break
+        req_at = case["metrics"][sid]["req_at"]
+        if req_at == 0 and xs and not (start <= xs[0][0] <= start + 2 * p):
+            out.append(f"start: first timestamp {xs[0][0]} not within two periods after creation {start}")
+    # shared: what is sent at one clock reading... one tick = one timestamp; two metrics both alive must agree on the grid
+    allT = sorted({T for xs in per.values() for T, _ in xs})
+    for a, b in zip(allT, allT[1:]):
+        if (b - a) % p != 0:
+            out.append(f"shared: timestamps {a} and {b} of different metrics are not on one grid")
+            break
+    return [{"what": w, "finding": None} for w in out]
+
+
+class ActorStream(R.Stream):
+    """ComponentMetricsResamplingActor end to end (real channels, real supervisor loop); oracle only."""
+    name = "actor"
+    coq_header = R.C07_HEADER
+    n_quick = 60
+    n_thorough = 1500
+
+    def gen(self, rng, tier):
+        for _ in range(self.n_quick if tier == "quick" else self.n_thorough):
+            yield R.gen_actor_case(rng, tier)
+
+    def run_impl(self, case):
+        return R.run_actor_scenario(case)
+
+    def to_coq(self, case, obs):
+        return None
+
+    def oracle(self, case, obs):
+        return judge_actor(case, obs["log"])
+
+    def key(self, case, obs):
+        if sum(1 for e in obs["log"] if e[0] == "out") < 2:
+            return None
+        return json.dumps(case, sort_keys=True)
+
+    def labels(self, case, obs):
+        out = ["actor_run"]
+        if any(e[0] == "close" for e in obs["log"]):
+            out.append("source_closed(remove-and-retry)")
+        if any(e[0] == "hog" for e in obs["log"]):
+            out.append("timer_late(hog)")
+        return out
+
+    def shrink(self, case):
+        for i in range(len(case["hogs"])):
+            yield {**case, "hogs": case["hogs"][:i] + case["hogs"][i + 1:]}
+        for i in range(len(case["metrics"]) - 1, 0, -1):
+            yield {**case, "metrics": case["metrics"][:i] + case["metrics"][i + 1:]}
+        for i, m in enumerate(case["metrics"]):
+            for fld in ("close_at", "nsamples"):
+                if m.get(fld) is not None:
+                    yield {**case, "metrics": case["metrics"][:i] + [{k: v for k, v in m.items() if k != fld}] + case["metrics"][i + 1:]}
